@@ -5,6 +5,8 @@ CONSTANTS
   T = 10
   D = 1
   MaxEvents = 3
+  MaxFails = 1
+  Backoff = FALSE
   Closed = TRUE
   ObserveCb = TRUE
   TrackQuiet = FALSE
